@@ -126,7 +126,7 @@ macro "act_cases" a:ident "=>" t:tacticSeq : tactic => `(tactic| (
       obtain ⟨sh', p'⟩ := r
       unfold stepProc mainStep handlerStep afterHandler finStart release markEpoch at hr
       simp only []
-      unfold upd
+      try unfold upd
       ($t)
     · ($t)
   | signal i sg =>
@@ -136,15 +136,15 @@ macro "act_cases" a:ident "=>" t:tacticSeq : tactic => `(tactic| (
       obtain ⟨sh', p'⟩ := r
       unfold deliver finStart release at hr
       simp only []
-      unfold upd
+      try unfold upd
       ($t)
     · ($t)
-  | spawn o b => simp only [act]; unfold newProc upd; ($t)
+  | spawn o b => simp only [act]; (try unfold newProc); (try unfold upd); ($t)
   | lLock l => simp only [act]; split <;> (try unfold upd) <;> ($t)
-  | lSpawn l o b => simp only [act]; split <;> (try unfold newProc upd) <;> ($t)
+  | lSpawn l o b => simp only [act]; split <;> (try unfold newProc) <;> (try unfold upd) <;> ($t)
   | lWrite l => simp only [act]; split <;> (try unfold upd) <;> ($t)
-  | lRelease l => simp only [act]; split <;> (try unfold release upd) <;> ($t)
-  | lDie l => simp only [act]; split <;> (try unfold release upd) <;> ($t)))
+  | lRelease l => simp only [act]; split <;> (try unfold release) <;> (try unfold upd) <;> ($t)
+  | lDie l => simp only [act]; split <;> (try unfold release) <;> (try unfold upd) <;> ($t)))
 
 theorem act_fresh (cfg : Cfg) (d0 : Bool) (s : St) (a : Act) (h : Inv cfg d0 s) :
     ∀ i, (act cfg s a).n ≤ i → (act cfg s a).procs i = {} := by
@@ -484,5 +484,50 @@ theorem filter_le_one {α : Type} (p : α → Bool) (l : List α) (hn : l.Nodup)
         exact hn'.1 (this ▸ ha)
       simp [List.filter, hx, this]
     · simp [List.filter, hx]; exact ih'
+
+
+def Loc.afterTouch : Loc → Bool
+  | .reraise | .fin _ _ => true
+  | _ => false
+
+theorem Loc.afterTouch_not_inTry (l : Loc) (h : l.afterTouch = true) : l.inTry = false := by
+  cases l <;> simp_all [Loc.afterTouch, Loc.inTry]
+
+/-- a process that wrote the success marker is leaving; one signalled inside the body never writes it -/
+def TouchLocal (p : Proc) : Prop :=
+  (p.touched = true → p.loc.afterTouch = true) ∧ (p.sigInBody = true → p.loc.afterBody = true ∧ (inBody p = true → p.hnd ≠ none) ∧ p.touched = false)
+
+theorem step_touchLocal (cfg : Cfg) (i : Nat) (sh : Shared) (p : Proc) (ih : TouchLocal p) :
+    TouchLocal (stepProc cfg i sh p).2 := by
+  unfold TouchLocal at *
+  cases hr : stepProc cfg i sh p with
+  | mk sh' p' =>
+  unfold stepProc mainStep handlerStep afterHandler finStart release markEpoch at hr
+  simp only
+  have := Loc.afterTouch_not_inTry p.loc
+  refine ⟨?_, ?_⟩ <;> grind (splits := 30) [Loc.afterTouch, Loc.afterBody, Loc.inTry, inBody]
+
+theorem deliver_touchLocal (i : Nat) (sh : Shared) (p : Proc) (sg : Sig) (ih : TouchLocal p) :
+    TouchLocal (deliver i sh p sg).2 := by
+  unfold TouchLocal at *
+  cases hr : deliver i sh p sg with
+  | mk sh' p' =>
+  unfold deliver finStart release at hr
+  simp only
+  refine ⟨?_, ?_⟩ <;> grind (splits := 30) [Loc.afterTouch, Loc.afterBody, Loc.inTry, inBody, noHandler]
+
+theorem touchLocal_reach {cfg : Cfg} {done : Bool} {failed : Option Nat} {s : St} (h : Reach cfg done failed s) :
+    ∀ q, q < s.n → TouchLocal (s.procs q) := by
+  obtain ⟨acts, rfl⟩ := h
+  suffices ∀ (acts : List Act) (s : St), (∀ q, q < s.n → TouchLocal (s.procs q)) →
+      ∀ q, q < (run cfg s acts).n → TouchLocal ((run cfg s acts).procs q) from
+    this acts _ (by intro q hq; simp [St.init] at hq)
+  intro acts
+  induction acts with
+  | nil => intro s h; exact h
+  | cons a as ih =>
+    intro s h
+    exact ih _ (act_local cfg TouchLocal (by intro o b; simp [TouchLocal, newProc]) (step_touchLocal cfg)
+      deliver_touchLocal s a h)
 
 end XpmVerif.Runner
